@@ -35,30 +35,34 @@
 extern unsigned long long rt_replay_vals[];
 extern unsigned rt_replay_n;
 static unsigned rt_replay_i;
-static unsigned long long rt_next_choice(void) {
+static uint64_t rt_choice(void) {
   if (rt_replay_i >= rt_replay_n) return 0;
   return rt_replay_vals[rt_replay_i++];
 }
-static unsigned nondet_uint(void) { return (unsigned)rt_next_choice(); }
-static _Bool nondet_bool(void) { return (_Bool)(rt_next_choice() & 1); }
-static uint64_t nondet_u64(void) { return (uint64_t)rt_next_choice(); }
 static void rt_fail(const char *msg) { printf("REPLAY-FAIL: %s\n", msg); fflush(stdout); exit(42); }
 #define RT_ASSERT(c, msg) do { if (!(c)) rt_fail(msg); } while (0)
 #define RT_ASSUME(c) do { if (!(c)) { printf("REPLAY-ASSUME-FALSE: %s\n", #c); exit(43); } } while (0)
 #define RT_COVER(c, msg) do { if (c) { printf("REPLAY-COVER: %s\n", msg); } } while (0)
 #else
-unsigned nondet_uint(void);
-_Bool nondet_bool(void);
-uint64_t nondet_u64(void);
+uint64_t nondet_u64raw(void);
+/* every nondeterministic choice goes through rt_choice so that a counterexample trace lists them in order */
+static uint64_t rt_choice(void) { uint64_t rt_choice_v = nondet_u64raw(); return rt_choice_v; }
 #define RT_ASSERT(c, msg) __CPROVER_assert((c), msg)
 #define RT_ASSUME(c) __CPROVER_assume(c)
+#ifdef WITNESS
 #define RT_COVER(c, msg) __CPROVER_assert(!(c), "WITNESS " msg)
+#else
+#define RT_COVER(c, msg) ((void)0)
+#endif
 void *malloc(__CPROVER_size_t);
 void *calloc(__CPROVER_size_t, __CPROVER_size_t);
 void free(void *);
 void *memset(void *, int, __CPROVER_size_t);
 void *memcpy(void *, const void *, __CPROVER_size_t);
 #endif
+#define nondet_uint() ((unsigned)rt_choice())
+#define nondet_bool() ((_Bool)(rt_choice() & 1))
+#define nondet_u64() ((uint64_t)rt_choice())
 
 #define RT_UNREACHABLE() RT_ASSERT(0, "unreachable executed")
 #define RT_ABORT(msg) RT_ASSERT(0, "library abort: " msg)
